@@ -3,6 +3,8 @@ package zzverif
 import (
 	"context"
 	"errors"
+	"strconv"
+	"strings"
 	"time"
 
 	"github.com/lestrrat-go/jwx/v2/jwk"
@@ -59,6 +61,13 @@ func (s *spyStore) do(op, sid string, arg map[string]any, run func() (map[string
 	if fault == "before" {
 		err = errInjected
 		res = map[string]any{"ex": false}
+	} else if strings.HasPrefix(fault, "cmd") {
+		// fail exactly the k-th Redis command this store call issues (a fault between two commands of one call)
+		k, _ := strconv.Atoi(strings.TrimPrefix(fault, "cmd"))
+		hit := d.failRedisCommand(k)
+		res, err = run()
+		d.clearRedisHook()
+		ev["cmdFaultHit"] = *hit
 	} else {
 		res, err = run()
 		if fault == "after" {
